@@ -5,8 +5,10 @@
    (2) a Gallina port of tsk_treeseq_branch_allele_frequency_spectrum /
        tsk_treeseq_update_branch_afs (c/tskit/trees.c 3470-3633) restricted to that
        configuration (no folding, one dimension).
-   The port keeps the code's treatment of last_update[]: it is NOT refreshed for the child
-   when an edge is inserted (3577-3594), which is finding C08-F2.  Executable definitions. *)
+   The port follows the repaired code (fix 093fdd5): last_update[u] = t_left when an edge
+   above u is inserted.  The pre-fix behaviour (last_update[u] left alone, finding C08-F2) is
+   kept as the [refresh = false] variant ([afs_branch_port_pinned]) for the historical
+   record only.  Executable definitions. *)
 From Coq Require Import List ZArith QArith Qminmax Bool Lia.
 From TskVerif Require Import C08.Model C08.Incremental.
 Import ListNotations.
@@ -69,12 +71,13 @@ Definition afs_remove (nall : Z) (e : edge) (t_left : Q) (wi : nat) (s : astate)
   let s2 := aclimb (S (length (a_parent s1))) nall (-1) u (e_parent e) t_left wi s1 in
   mka (zupd (a_parent s2) u NULL) (zupd (a_bl s2) u 0) (a_last s2) (a_cnt s2) (a_res s2).
 
-(* 3577-3594: parent[u] = v; branch_length[u] = ...; last_update[u] is left alone *)
-Definition afs_insert (time : list Q) (nall : Z) (e : edge) (t_left : Q) (wi : nat) (s : astate) : astate :=
+(* insertion loop: parent[u] = v; branch_length[u] = ...; last_update[u] = t_left (the last
+   assignment is the repair; refresh = false is the pinned pre-fix code) *)
+Definition afs_insert (refresh : bool) (time : list Q) (nall : Z) (e : edge) (t_left : Q) (wi : nat) (s : astate) : astate :=
   let u := e_child e in
   let v := e_parent e in
   let s1 := mka (zupd (a_parent s) u v) (zupd (a_bl s) u (znth time v 0 - znth time u 0))
-                (a_last s) (a_cnt s) (a_res s) in
+                (if refresh then zupd (a_last s) u t_left else a_last s) (a_cnt s) (a_res s) in
   aclimb (S (length (a_parent s1))) nall 1 u v t_left wi s1.
 
 Fixpoint afs_drain_out (fuel : nat) (nall : Z) (E : list edge) (O : list Z) (tk : Z) (t_left : Q)
@@ -86,13 +89,13 @@ Fixpoint afs_drain_out (fuel : nat) (nall : Z) (E : list edge) (O : list Z) (tk 
       then afs_drain_out f nall E O (tk + 1)%Z t_left wi (afs_remove nall (eget E (znth O tk 0%Z)) t_left wi s)
       else (tk, s)
   end.
-Fixpoint afs_drain_in (fuel : nat) (time : list Q) (nall : Z) (E : list edge) (I : list Z) (tj : Z)
+Fixpoint afs_drain_in (refresh : bool) (fuel : nat) (time : list Q) (nall : Z) (E : list edge) (I : list Z) (tj : Z)
          (t_left : Q) (wi : nat) (s : astate) : Z * astate :=
   match fuel with
   | O => (tj, s)
   | S f =>
       if (tj <? Z.of_nat (length E))%Z && Qeq_bool (e_left (eget E (znth I tj 0%Z))) t_left
-      then afs_drain_in f time nall E I (tj + 1)%Z t_left wi (afs_insert time nall (eget E (znth I tj 0%Z)) t_left wi s)
+      then afs_drain_in refresh f time nall E I (tj + 1)%Z t_left wi (afs_insert refresh time nall (eget E (znth I tj 0%Z)) t_left wi s)
       else (tj, s)
   end.
 
@@ -108,33 +111,36 @@ Fixpoint afs_flush (fuel : nat) (nall : Z) (ws : list Q) (wi : nat) (t_right : Q
       else (wi, s)
   end.
 
-Fixpoint afs_sweep (fuel : nat) (time : list Q) (nall : Z) (E : list edge) (I O : list Z) (L : Q)
+Fixpoint afs_sweep (refresh : bool) (fuel : nat) (time : list Q) (nall : Z) (E : list edge) (I O : list Z) (L : Q)
          (ws : list Q) (tj tk : Z) (t_left : Q) (wi : nat) (s : astate) : option astate :=
   if negb ((tj <? Z.of_nat (length E))%Z || Qltb t_left L) then Some s else
   match fuel with
   | O => None
   | S f =>
       let '(tk', s1) := afs_drain_out (S (length E)) nall E O tk t_left wi s in
-      let '(tj', s2) := afs_drain_in (S (length E)) time nall E I tj t_left wi s1 in
+      let '(tj', s2) := afs_drain_in refresh (S (length E)) time nall E I tj t_left wi s1 in
       let r1 := if (tj' <? Z.of_nat (length E))%Z then Qmin L (e_left (eget E (znth I tj' 0%Z))) else L in
       let t_right := if (tk' <? Z.of_nat (length E))%Z then Qmin r1 (e_right (eget E (znth O tk' 0%Z))) else r1 in
       let '(wi', s3) := afs_flush (S (length ws)) nall ws wi t_right s2 in
-      afs_sweep f time nall E I O L ws tj' tk' t_right wi' s3
+      afs_sweep refresh f time nall E I O L ws tj' tk' t_right wi' s3
   end.
 
 Definition mem (x : Z) (l : list Z) : bool := existsb (Z.eqb x) l.
 
 (* result[window][count], un-normalised; None = fuel exhausted *)
-Definition afs_branch_port (time : list Q) (S all : list Z) (E : list edge) (I O : list Z)
+Definition afs_branch_port_gen (refresh : bool) (time : list Q) (S all : list Z) (E : list edge) (I O : list Z)
            (L : Q) (ws : list Q) : option (list (list Q)) :=
   let n := length time in
   let cnt := map (fun u => ((if mem u S then 1 else 0), (if mem u all then 1 else 0))%Z) (zseq n) in
   let s0 := mka (repeat NULL n) (repeat 0 n) (repeat 0 n) cnt
                 (repeat (repeat 0 (Datatypes.S (length S))) (length ws - 1)) in
-  match afs_sweep (2 * length E + 2) time (Z.of_nat (length all)) E I O L ws 0%Z 0%Z 0 0%nat s0 with
+  match afs_sweep refresh (2 * length E + 2) time (Z.of_nat (length all)) E I O L ws 0%Z 0%Z 0 0%nat s0 with
   | Some s => Some (a_res s)
   | None => None
   end.
+
+Definition afs_branch_port := afs_branch_port_gen true.           (* the code as repaired *)
+Definition afs_branch_port_pinned := afs_branch_port_gen false.   (* pre-fix code, C08-F2 *)
 
 (* the definition, as result[window][count] *)
 Definition afs_branch_spec_table (time : list Q) (S all : list Z) (segs : list seg) (ws : list Q)
@@ -160,3 +166,7 @@ Definition normalise_table (norm : bool) (ws : list Q) (t : list (list Q)) : lis
 Definition check_afs_port (r : option (list (list Q))) (norm : bool) (ws : list Q)
            (expected : list (list Q)) : bool :=
   match r with Some t => qtable_eqb (normalise_table norm ws t) expected | None => false end.
+
+Definition check_afs_spec (time : list Q) (S all : list Z) (segs : list seg) (norm : bool)
+           (ws : list Q) (expected : list (list Q)) : bool :=
+  qtable_eqb (normalise_table norm ws (afs_branch_spec_table time S all segs ws)) expected.
